@@ -202,4 +202,7 @@ def check(ctx: Ctx, col: Collector, tier: str) -> None:
     (col.ok if sorted_ok else col.bad)("C11.IMPORT-RENDER", f"{GEN}::{GENCLS}._create_imports_string::sorted", repo.loc(GEN, ifi.node),
                                        "import lines are sorted before joining (the set of imports has no order)" if sorted_ok else "not sorted",
                                        *([] if sorted_ok else ["import lines are joined in set-iteration order"]))
+    from .shared import share
+    share(ctx, col, "C10", {"C10.WRITE-MODE"}, "every placeholder declaration an import names survives in its placeholder stub")
+    share(ctx, col, "C09", {"C09.ROLE-PIPELINE"}, "the declared, imported and referenced spelling of a class agree")
     col.assume("that the package an import names is the package of the stub file declaring the class (two shortest-path heuristics over strings) is not decided")
